@@ -7,7 +7,7 @@ out=selftest/controls_result.md
 #        controls.sh R2-A R6-C  only those, results appended
 if [ $# -eq 0 ]; then
   echo "# Behaviour-preserving controls: every quick check on each (none may alarm)" > $out
-  set -- $(cd controls && ls *.patch | sed 's/\.patch$//')
+  set -- $(cd controls && ls *.patch conforming/*.patch | sed 's/\.patch$//')
 fi
 for name in "$@"; do
   p=/verif/controls/$name.patch
@@ -20,5 +20,5 @@ for name in "$@"; do
   done
   git -C /repo checkout -- . ; git -C /repo clean -fdq
   git checkout -- evidence; rm -rf replay /tmp/ctl.$$
-  echo "- $(basename $p .patch): ${bad:-all 20 checks held}" | tee -a $out
+  echo "- $name: ${bad:-all 20 checks held}" | tee -a $out
 done
